@@ -168,3 +168,14 @@ def lossy_script(rng, repo):
     rec.run(rec.now + 4_000_000, latency, app=app, max_events=800)
     rec.dump_all()
     return rec
+
+
+def preempt_script(rng, repo):
+    """nominal / hostile / lossy / multi-PG histories in which passes are pre-empted by the reception of a frame"""
+    old = Rec22.PRE
+    Rec22.PRE = rng.choice([0.3, 0.6, 0.9])
+    try:
+        kind = rng.choice(['nominal', 'nominal', 'hostile', 'lossy', 'mpg'])
+        return dict(nominal=nominal_script, hostile=hostile_script, lossy=lossy_script, mpg=mpg_script)[kind](rng, repo)
+    finally:
+        Rec22.PRE = old
